@@ -134,8 +134,8 @@ def stage_spec(spec, cfg=None, workdir=None):
     return d
 
 
-def run_tlc(spec, cfg=None, workers=1, env=None, timeout=600, extra=(), dfs=False, workdir=None, heap=None):
-    d = stage_spec(spec, cfg, workdir)
+def run_tlc(spec, cfg=None, workers=1, env=None, timeout=600, extra=(), dfs=False, workdir=None, heap=None, staged=False):
+    d = workdir if staged else stage_spec(spec, cfg, workdir)
     e = dict(os.environ)
     if dfs:
         e["JAVA_TOOL_OPTIONS"] = TLC_JAVA_OPTS
